@@ -100,25 +100,31 @@ Proof.
     destruct k; try apply app_nil_r. contradiction.
 Qed.
 
-(** entity.transform([...]) hands the method call to the parts: same leaf calls, unless the entity is itself
-    an Angle (whose only part is the axis vector, an ordinary Point) *)
-Definition not_angle (n : node) : Prop := match n with NAngle _ => False | _ => True end.
+(** entity.transform([...]) (fix C09-9): each list item is the method call on the entity itself; only an operation
+    transformed through a list is not inverted by a listed Mirror *)
+Definition top_oper (n : node) : bool := match n with NOper _ _ _ => true | _ => false end.
 
-Lemma list_visits_flat k n : list_visits k n = flat_map (method_visits k) (parts_of n).
-Proof. unfold list_visits. induction (parts_of n) as [|x r IH]; [reflexivity|]. simpl. rewrite IH. reflexivity. Qed.
+Theorem list_visits_method k n : top_oper n = false -> list_visits k n = method_visits k n /\ list_tree k n = method_tree k n.
+Proof. destruct n; intro H; try discriminate H; split; reflexivity. Qed.
 
-Theorem list_visits_observable k n : not_angle n -> filter observable (list_visits k n) = visits k n.
+Theorem list_visits_oper k b t s :
+  list_visits k (NOper b t s) = visits k (NOper b t s) /\ list_tree k (NOper b t s) = NOper b t s.
+Proof. split; reflexivity. Qed.
+
+(** the same leaf calls as [visits], for every entity (a bare Angle included: Angle.translate/scale do nothing,
+    Angle.rotate/mirror turn the axis about the zero origin) *)
+Theorem list_visits_observable k n : filter observable (list_visits k n) = visits k n.
 Proof.
-  intro H. rewrite list_visits_flat, filter_flat_map.
-  destruct n as [i|i|i|l|b t s]; simpl in H; try contradiction.
-  - cbn [parts_of flat_map]. rewrite app_nil_r. apply method_visits_observable.
-  - cbn [parts_of flat_map]. rewrite app_nil_r. apply method_visits_observable.
-  - simpl parts_of. rewrite visits_group. apply flat_map_ext_Forall.
-    apply Forall_forall. intros x _. apply method_visits_observable.
-  - simpl parts_of. rewrite visits_oper. cbn [flat_map]. rewrite !method_visits_observable. do 2 f_equal.
-    apply flat_map_ext_Forall. apply Forall_forall. intros x _. apply method_visits_observable.
+  destruct n as [i|i|i|l|b t s]; cbn [list_visits]; try apply method_visits_observable.
+  apply visits_observable.
 Qed.
 
-(** ... and for a top-level Angle the list displaces the axis: a translation reaches the axis vector *)
-Theorem list_visits_angle_translate i : list_visits KTranslate (NAngle i) = [(i, VGiven)] /\ visits KTranslate (NAngle i) = [].
-Proof. split; reflexivity. Qed.
+Theorem list_visits_nonmirror k n : k <> KMirror -> list_visits k n = visits k n.
+Proof.
+  intro Hk. destruct n as [i|i|i|l|b t s]; cbn [list_visits]; try (apply method_visits_nonmirror; exact Hk).
+  reflexivity.
+Qed.
+
+(** a transformation list applied to a bare Angle: exactly the calls of Angle.translate/rotate/scale/mirror *)
+Theorem list_visits_angle k i : list_visits k (NAngle i) = visits k (NAngle i).
+Proof. reflexivity. Qed.
